@@ -103,8 +103,8 @@ class Ctx:
             ents = sorted((os.path.getmtime(os.path.join(d, f)), f) for f in os.listdir(d))
         except OSError:
             return
-        # keep the 18 most recent files (6 configs x a few digests)
-        for _, f in ents[:-36]:
+        # keep the 120 most recent files (parallel control / seeded runs keep many trees in flight)
+        for _, f in ents[:-120]:
             try:
                 os.remove(os.path.join(d, f))
             except OSError:
